@@ -22,6 +22,8 @@ class Stats:
         self.fail_calls = 0
         self.stop_shrinking = False
         self.shrink_limit = 400
+        self.survey = bool(os.environ.get('VERIF_SURVEY'))
+        self.buckets = {}
 
     def run_case(self, case, exhaustive=False):
         """Run one case. Raises AssertionError on an unlisted violation."""
@@ -44,6 +46,13 @@ class Stats:
                 self.excluded[fid] = self.excluded.get(fid, 0) + 1
             else:
                 unknown.append(v)
+        if unknown and self.survey:
+            for v in unknown:
+                b = self.buckets.setdefault(v.kind, {'n': 0, 'example': None, 'msg': v.msg[:300]})
+                b['n'] += 1
+                if b['example'] is None or len(dump_case(case)) < len(dump_case(b['example'])):
+                    b['example'] = case; b['msg'] = v.msg[:300]
+            unknown = []
         if unknown:
             sub = unknown[0].detail.pop('subcase', None)
             self.failure = (sub if sub is not None else case, [v.to_json() for v in unknown])
@@ -119,6 +128,7 @@ def run_shard(prop_id, tier, seed, shard, nshards, outfile):
             'failure': None if stats.failure is None else
                        {'case': _jsonable(stats.failure[0]), 'violations': stats.failure[1]},
             'exhaustive_done': exhaustive_done,
+            'buckets': {k: {'n': b['n'], 'msg': b['msg'], 'example': _jsonable(b['example'])} for k, b in stats.buckets.items()},
         })
     except BaseException as e:
         out['harness_error'] = ''.join(traceback.format_exception(type(e), e, e.__traceback__))[-6000:]
